@@ -12,7 +12,8 @@
 //!   not deliver).
 //! * `read_to_string` — as above; if the delivered bytes are not UTF-8: `Err` and the String is
 //!   byte-identical to before (when the stream was cut short by a reader error, old ++ a valid
-//!   prefix of the delivered bytes is accepted as well). The String is valid UTF-8 at every exit.
+//!   prefix of the delivered bytes is accepted as well - and the error returned is the reader's,
+//!   not "not UTF-8": the stream failed, it did not end). The String is valid UTF-8 at every exit.
 //! * `read_exact` — `Ok` iff n bytes were delivered with no EOF / error answer before; buffer
 //!   equals the delivered bytes; exactly n bytes consumed. EOF before n ⇒ `Err`.
 //! * `write_all` / `write_fmt` — `Ok` ⇒ sink == bytes exactly; `Err(e)` ⇒ the writer answered a
